@@ -366,6 +366,19 @@ def run(ctx):
                             res.unknown("D-POOL", f, norm(n), "from-rewired-edges", "the pool is built by a helper", loc(v.fi, n))
                         else:
                             res.violation("D-POOL", f, norm(n), "from-rewired-edges", "the pool is taken from another source than the hyperedges selected for rewiring", loc(v.fi, n))
+            # (c) bulk additions  pool.update(<mapping / pairs>)  /  pool |= ...
+            if isinstance(n, ast.Call) and isinstance(n.func, ast.Attribute) and n.func.attr in ("update", "extend", "union") and norm(n.func.value) in pool_names and n.args:
+                n_sources += 1
+                src = v.inline(n.args[0], depth=2)
+                hgp = v.fi.params[0].arg
+                whole = any(isinstance(x, ast.Call) and isinstance(x.func, ast.Attribute) and isinstance(x.func.value, ast.Name) and x.func.value.id == hgp for x in ast.walk(src))
+                from_sel = (isinstance(src, (ast.GeneratorExp, ast.ListComp, ast.DictComp, ast.SetComp)) and selected_edges_generators(src.generators))
+                if whole and not from_sel:
+                    res.violation("D-POOL", f, norm(n)[:100], "from-rewired-edges", f"the pool is extended from `{norm(src)[:50]}`, a query over the WHOLE hypergraph: it gains every node that occurs in hyperedges of that size, not only the nodes of the hyperedges selected for rewiring - replacement nodes can come from hyperedges that are not rewired", loc(v.fi, n))
+                elif from_sel:
+                    res.ok("D-POOL", f, norm(n)[:100], "from-rewired-edges", loc(v.fi, n))
+                else:
+                    res.unknown("D-POOL", f, norm(n)[:100], "from-rewired-edges", "what the pool is extended with was not recognised", loc(v.fi, n))
         if n_sources == 0:
             raise AnalysisError(f"{f}: pool construction idiom not recognised")
         size_kw = [x for s_ in sel for x in ast.walk(s_.value) if isinstance(x, ast.Call) and isinstance(x.func, ast.Attribute) and x.func.attr == "get_edges"]
